@@ -307,6 +307,209 @@ def run_history(case, legs, rng, tag, cap, check_hypothesis=True):
     return out
 
 
+CK_KINDS = ['restore-continue-restore', 'two-restores-continue-each', 'saved-continued-then-restore', 'resave-same-path', 'two-checkpoints']
+
+
+def interp_points(case):
+    return [tuple(float(Fraction(n, 32)) * (bb - aa) + aa for aa, bb in zip(case['a'], case['b'])) for n in (3, 11, 16, 22, 29)]
+
+
+def observables(sa, case):
+    """the state of an instance as data (the instance itself is not touched: interpolation on a deep copy)"""
+    import numpy as np
+    d = dict(structure=structure(sa, case), integral=A.vec(sa.operation.integral), points=int(sa.get_total_num_points()),
+             errors=[A.fl(x) for x in sa.error_array], num_points=[int(x) for x in sa.num_point_array],
+             surplus=[A.fl(x) for x in sa.surplus_error_array], cache=len(sa.operation.f.f_dict), log=len(set(sa.operation.f.log)),
+             attrs=repr([getattr(sa, n, None) for n in ('tolerance', 'reevaluate_at_end', 'lmax', 'lmin', 'refinements', 'counter')]))
+    try:
+        sc = copy.deepcopy(sa)
+        unwrap(sc)
+        with A.quiet():
+            d['interpolation'] = [A.vec(v) for v in np.asarray(sc(interp_points(case)))]
+    except Exception as e:
+        d['interpolation'] = 'exc:' + type(e).__name__
+    return d
+
+
+def obs_diff(a, b):
+    return sorted(k for k in a if a[k] != b.get(k))
+
+
+def shared_state(x, y):
+    """objects two instances have in common (a restored instance must share NOTHING mutable with any other instance)"""
+    out = []
+    if x is y:
+        return ['instance']
+    for name, get in (('refinement', lambda s: s.refinement), ('operation', lambda s: s.operation), ('function', lambda s: s.operation.f),
+                      ('function-cache', lambda s: s.operation.f.f_dict), ('scheme', lambda s: s.scheme), ('grid', lambda s: s.grid),
+                      ('error_array', lambda s: s.error_array), ('num_point_array', lambda s: s.num_point_array)):
+        try:
+            if get(x) is get(y):
+                out.append(name)
+        except AttributeError:
+            pass
+    try:
+        ids = {id(o) for o in A.all_objects(y)}
+        if any(id(o) in ids for o in A.all_objects(x)):
+            out.append('refinement-objects')
+    except Exception:
+        pass
+    return out
+
+
+def checkpoint_scenario(case, spec, lf, single_snap, rng, cap):
+    """several restores of ONE checkpoint file in one process, interleaved with continuations; every restored object is compared
+    with the instance AS SAVED (observables recorded at save time), every continuation with the uninterrupted run / its stream.
+    spec: dict(kind, l1 (first call, stops at stream position k), lm (intermediate continuation, stops at p) | None, k, p)"""
+    from sparseSpACE.StandardCombi import StandardCombi
+    work = os.environ.get('VERIF_WORK', '/verif/.work/C14')
+    base = 'ckpt-%d-%d' % (os.getpid(), rng.randrange(1 << 30))
+    checks, steps = [], []
+    final = {'tol': lf[0], 'min': lf[1], 'max': lf[2]}
+    lm = spec.get('lm') or final
+    nrestores = [0]
+
+    def spelling(name):
+        """the same file under different spellings of its path (the workers' current directory is the work directory)"""
+        i = nrestores[0]
+        nrestores[0] += 1
+        return [os.path.join(work, name), name, './' + name, os.path.join(work, '.', name)][i % 4]
+
+    def save(inst, name):
+        unwrap(inst)
+        with A.quiet():
+            inst.save_to_file(spelling(name))
+        steps.append('save(%s)' % name)
+
+    def restore(name, label):
+        with A.quiet():
+            r = StandardCombi.restore_from_file(spelling(name))
+        steps.append('%s=restore(%s)' % (label, name))
+        return r
+
+    def cont(inst, leg, label):
+        ev = []
+        wrap_events(inst, ev, cap)
+        try:
+            LG.call_continue(inst, leg)
+            ok = True
+        except Runaway:
+            ok = False
+        unwrap(inst)
+        steps.append('continue(%s, %s)' % (label, ', '.join('%s=%r' % (k, leg[k]) for k in ('tol', 'min', 'max') if k in leg) or 'defaults'))
+        return ok
+
+    def expect_saved(inst, obs, what):
+        d = obs_diff(obs, observables(inst, case))
+        checks.append(dict(check='restored-equals-saved', what=what, ok=not d, differs=d, after=list(steps)))
+
+    def expect_independent(objs):
+        for i in range(len(objs)):
+            for j in range(i + 1, len(objs)):
+                sh = shared_state(objs[i][1], objs[j][1])
+                checks.append(dict(check='independent', what='%s / %s' % (objs[i][0], objs[j][0]), ok=not sh, differs=sh, after=list(steps)))
+
+    def expect_unmoved(inst, obs, what):
+        d = obs_diff(obs, observables(inst, case))
+        checks.append(dict(check='unmoved', what=what, ok=not d, differs=d, after=list(steps)))
+
+    def expect_end(inst, ok, what, calls):
+        snap = dict(structure=structure(inst, case), result=A.vec(inst.operation.get_result()), points=int(inst.get_total_num_points()))
+        d = same_end(snap, single_snap, LG.magnitude(case)) if ok else ['does-not-stop']
+        if int(inst.get_total_num_points()) != len(set(inst.operation.f.log)):
+            d.append('point-count!=distinct-evaluations')
+        checks.append(dict(check='ends-where-uninterrupted-run-ends', what=what, ok=not d, differs=d, after=list(steps),
+                           position=len(inst.error_array) - calls, points=int(inst.get_total_num_points())))
+
+    def expect_position(inst, ok, what, calls):
+        pos = len(inst.error_array) - calls
+        d = [] if (ok and pos == spec['p']) else ['position %s, expected %s' % (pos if ok else 'none (does not stop)', spec['p'])]
+        checks.append(dict(check='intermediate-stop-position', what=what, ok=not d, differs=d, after=list(steps), position=pos))
+
+    sa, op, f, eo = A.build(case)
+    ev0 = []
+    wrap_events(sa, ev0, cap)
+    LG.call_perform(sa, eo, case, spec['l1'], reevaluate_at_end=bool(case.get('reeval')))
+    unwrap(sa)
+    steps.append('sa=perform(%s)' % ', '.join('%s=%r' % (k, spec['l1'][k]) for k in ('tol', 'min', 'max') if k in spec['l1']))
+    obs0 = observables(sa, case)
+    kind = spec['kind']
+    P = base + '.dill'
+    try:
+        if kind == 'restore-continue-restore':
+            save(sa, P)
+            r1 = restore(P, 'r1'); expect_saved(r1, obs0, 'r1 (first restore)')
+            ok1 = cont(r1, lm, 'r1'); expect_position(r1, ok1, 'r1 continued with intermediate limits', 2)
+            o1 = observables(r1, case)
+            r2 = restore(P, 'r2'); expect_saved(r2, obs0, 'r2 (restore after r1 was continued)')
+            expect_independent([('saved', sa), ('r1', r1), ('r2', r2)])
+            ok2 = cont(r2, final, 'r2'); expect_end(r2, ok2, 'r2 continued with the final limits', 2)
+            expect_unmoved(r1, o1, 'r1 while r2 was continued'); expect_unmoved(sa, obs0, 'the saved instance while its copies were continued')
+        elif kind == 'two-restores-continue-each':
+            save(sa, P)
+            r1 = restore(P, 'r1'); r2 = restore(P, 'r2')
+            expect_saved(r1, obs0, 'r1'); expect_saved(r2, obs0, 'r2 (second restore of the same file)')
+            expect_independent([('saved', sa), ('r1', r1), ('r2', r2)])
+            ok1 = cont(r1, final, 'r1'); expect_end(r1, ok1, 'r1 continued with the final limits', 2)
+            expect_unmoved(r2, obs0, 'r2 while r1 was continued')
+            ok2 = cont(r2, lm, 'r2'); expect_position(r2, ok2, 'r2 continued with intermediate limits', 2)
+            ok2 = ok2 and cont(r2, final, 'r2'); expect_end(r2, ok2, 'r2 continued again with the final limits', 3)
+        elif kind == 'saved-continued-then-restore':
+            save(sa, P)
+            ok0 = cont(sa, final, 'sa'); expect_end(sa, ok0, 'the saved instance itself continued with the final limits', 2)
+            r1 = restore(P, 'r1'); expect_saved(r1, obs0, 'r1 (restore after the saved instance was continued)')
+            expect_independent([('saved', sa), ('r1', r1)])
+            ok1 = cont(r1, final, 'r1'); expect_end(r1, ok1, 'r1 continued with the final limits', 2)
+        elif kind == 'resave-same-path':
+            save(sa, P)
+            r1 = restore(P, 'r1'); expect_saved(r1, obs0, 'r1')
+            ok1 = cont(r1, lm, 'r1'); expect_position(r1, ok1, 'r1 continued with intermediate limits', 2)
+            o1 = observables(r1, case)
+            save(r1, P)                                      # the same file, rewritten at once (same second) with another state
+            r2 = restore(P, 'r2'); expect_saved(r2, o1, 'r2 (restore of the rewritten file)')
+            expect_independent([('saved', sa), ('r1', r1), ('r2', r2)])
+            ok2 = cont(r2, final, 'r2'); expect_end(r2, ok2, 'r2 continued with the final limits', 3)
+            expect_unmoved(r1, o1, 'r1 while r2 was continued')
+        else:                                                # two checkpoint files of different states written within the same second
+            P2 = base + '-b.dill'
+            save(sa, P)
+            ok0 = cont(sa, lm, 'sa'); expect_position(sa, ok0, 'the saved instance continued with intermediate limits', 2)
+            o1 = observables(sa, case)
+            save(sa, P2)
+            ra = restore(P, 'ra'); rb = restore(P2, 'rb')
+            expect_saved(ra, obs0, 'ra (first checkpoint)'); expect_saved(rb, o1, 'rb (second checkpoint)')
+            expect_independent([('saved', sa), ('ra', ra), ('rb', rb)])
+            oka = cont(ra, final, 'ra'); expect_end(ra, oka, 'ra continued with the final limits', 2)
+            okb = cont(rb, final, 'rb'); expect_end(rb, okb, 'rb continued with the final limits', 3)
+            os.remove(os.path.join(work, P2))
+    finally:
+        for name in (P,):
+            try:
+                os.remove(os.path.join(work, name))
+            except OSError:
+                pass
+    return dict(spec=spec, checks=checks, steps=steps, first_stop=len(obs0['errors']) - 1)
+
+
+def draw_checkpoint_spec(rng, lf, uerrs, upts, K):
+    k = rng.randrange(0, K + 1)
+    got = draw_interruption(rng, lf, uerrs, upts, 0, k, True)
+    if got is None:
+        k = K
+        got = ('same', express(rng, lf, True))
+    l1 = {x: v for x, v in got[1].items() if x != 'style'}
+    k = LG.first_stop(LG.resolve(l1, True), uerrs, upts, 0)
+    p = rng.randrange(k, K + 1)
+    gm = draw_interruption(rng, lf, uerrs, upts, k, p, False)
+    lm = None
+    if gm is not None:
+        lm = {x: v for x, v in gm[1].items() if x != 'style'}
+        p = LG.first_stop(LG.resolve(lm, False), uerrs, upts, k)
+    else:
+        p = K
+    return dict(kind=rng.choice(CK_KINDS), l1=l1, lm=lm, k=k, p=p)
+
+
 def impl_run(case):
     rng = random.Random(case['seed'])
     # probe: values on which the final limits are placed
@@ -351,7 +554,14 @@ def impl_run(case):
     for ci, ch in enumerate(chains):
         recs = run_history(case, ch['legs'], rng, 'c%d' % ci, cap=4 * ssnap['points'] + 200)
         runs.append(dict(k=ch.get('k'), legs=ch['legs'], kinds=ch.get('kinds', []), recs=recs))
-    return dict(lf=[A.fl(float(lf[0])), lf[1], lf[2]], lf_tol_is_int=isinstance(lf[0], int), single_leg=single_leg, single=single, runs=runs)
+    # several restores of ONE checkpoint file in one process
+    ck = None
+    spec = case.get('checkpoint')
+    if spec is None and case.get('chains') is None and case.get('l2') is None and rng.random() < 0.8:
+        spec = draw_checkpoint_spec(rng, lf, uerrs, upts, K)
+    if spec is not None:
+        ck = checkpoint_scenario(case, spec, lf, ssnap, rng, cap=4 * ssnap['points'] + 200)
+    return dict(lf=[A.fl(float(lf[0])), lf[1], lf[2]], lf_tol_is_int=isinstance(lf[0], int), single_leg=single_leg, single=single, runs=runs, checkpoint=ck)
 
 # ---------------------------------------------------------------------------------------------- comparison
 
@@ -396,9 +606,46 @@ def check_case(chk, case, r, mjobs):
         for run in r['runs']:
             mjobs.append((1, [[LG.enc_args(l, j) for j, l in enumerate(run['legs'])], LG.enc_args(r['single_leg']), LG.enc_stream(stream)]))
 
+    ck_job = None
+    if numbers_ok and r.get('checkpoint'):
+        sp = r['checkpoint']['spec']
+        lfin = LG.resolve(r['single_leg'], True)
+        ck_legs = [sp['l1']] + ([sp['lm']] if sp.get('lm') else []) + [{'tol': lfin[0], 'min': lfin[1], 'max': lfin[2]}]
+        ck_job = len(mjobs)
+        mjobs.append((1, [[LG.enc_args(l, j) for j, l in enumerate(ck_legs)], LG.enc_args(r['single_leg']), LG.enc_stream(stream)]))
+
     def evaluate(mres):
         K = len(single['errors']) - 1
         lf = LG.resolve(r['single_leg'], True)
+        ck = r.get('checkpoint')
+        if ck is not None and ck_job is not None:
+            # the stop positions the scenario expects (checkpoint at k, intermediate continuation at p, final continuation at K) are the
+            # ones the proved stream function computes for the calls of one copy: perform(l1); continue(lm); continue(final)
+            m = mres[ck_job]
+            sp = ck['spec']
+            want = [sp['k']] + ([sp['p']] if sp.get('lm') else []) + [K]
+            got = None if (sx.is_err(m) or isinstance(m, tuple)) else [x[0] for x in m[3]]
+            if got != want or not m[0] or not m[1]:
+                chk.violation('corr:C14/checkpoint', 'checkpoint-positions-differ', {'strat': case['strat']}, dict(case, single=r['single_leg'], chains=[], checkpoint=sp),
+                              dict(model=str(m)[:300], expected=want), failing_input=False)
+        if ck is not None:
+            kinds = {'restored-equals-saved': ('oracle:restore', 'restore-differs'), 'independent': ('oracle:restore', 'restore-shares-state'),
+                     'unmoved': ('oracle:restore', 'instance-moved-by-another'), 'ends-where-uninterrupted-run-ends': ('oracle:resume', 'resume-differs'),
+                     'intermediate-stop-position': ('oracle:resume', 'resume-position-differs')}
+            ckcase = dict(case, single=r['single_leg'], chains=[], checkpoint=ck['spec'])
+            for key in ('l2', 'ks', 'save'):
+                ckcase.pop(key, None)
+            for c in ck['checks']:
+                chk.count('checkpoint check %s: %s' % (c['check'], 'ok' if c['ok'] else 'FAILS'))
+                if not c['ok']:
+                    check, kind = kinds[c['check']]
+                    sg = {'strat': case['strat'], 'scenario': ck['spec']['kind']}
+                    if kind == 'resume-differs':
+                        sg.update(reevaluation_changes='none', restart=False)
+                    else:
+                        sg['what'] = ','.join(c['differs'])[:80]
+                    chk.violation(check, kind, sg, ckcase, dict(what=c['what'], differs=c['differs'], history=' ; '.join(c['after']),
+                                                               uninterrupted_run=leg_text(r['single_leg'], True), stops_at=K))
         for i, run in enumerate(r['runs']):
             legs, recs = run['legs'], run['recs']
             changed_any = []
@@ -572,6 +819,13 @@ def run(chk):
                                     'default-of-continue' if lf[0] == LG.CONTINUE_DEFAULT_TOL else 'default-of-perform' if lf[0] == LG.PERFORM_DEFAULT_TOL else 'positive'))
         chk.count('final max=%s' % ('none' if lf[2] is None else 'given')); chk.count('uninterrupted call ' + LG.leg_key(r['single_leg']))
         chk.count('histories', len(r['runs']))
+        if r.get('checkpoint'):
+            ckr = r['checkpoint']
+            chk.count('checkpoint scenario: ' + ckr['spec']['kind'])
+            chk.count('checkpoint scenario restores of one file', sum(1 for x in ckr['steps'] if 'restore(' in x))
+            chk.count('checkpoint saved at %s' % ('first evaluation' if ckr['first_stop'] == 0 else 'last evaluation' if ckr['first_stop'] == K else 'inner evaluation'))
+            if K >= 1:
+                keys.append((c['strat'], 'checkpoint', json.dumps(ckr['spec'], sort_keys=True), str(c['comps']), json.dumps(r['single_leg'], sort_keys=True)))
         for run_ in r['runs']:
             legs = run_['legs']
             chk.count('legs-in-history=%d' % len(legs)); chk.count('save/restore-in-history=%d' % sum(1 for l in legs[1:] if l.get('save')))
@@ -600,7 +854,7 @@ def run(chk):
     mres = run_model(14, mjobs)
     for ev in todo:
         ev(mres)
-    chk.record_cases(sum(len(r['runs']) for (st, r) in impl if st == 'ok'), keys,
+    chk.record_cases(sum(len(r['runs']) + (1 if r.get('checkpoint') else 0) for (st, r) in impl if st == 'ok'), keys,
                      'interrupted histories for every interruption index (<= 6 per run, always incl. first and last) of uninterrupted dimension-wise / '
                      'extend-split / cell runs (d 2..3, lmax 2..3, reference given/zero/none, norms, library and scripted error calculators, final limits '
                      'placed on observed values, tol=0, default tolerances): 1-3 interruptions per history stopped by max / tolerance / minimum / identical '
